@@ -13,6 +13,10 @@ PLANS = {
         "quick": {"runs": 400, "fault_runs": 100, "wall_s": 70, "per_task_s": 120},
         "thorough": {"runs": 40000, "fault_runs": 10000, "wall_s": 900, "per_task_s": 300},
     }),
+    "C11": ("law", {
+        "quick": {"runs": 1500, "fault_runs": 0, "wall_s": 70, "per_task_s": 120},
+        "thorough": {"runs": 200000, "fault_runs": 0, "wall_s": 900, "per_task_s": 300},
+    }),
     "C14": ("fresh", {
         "quick": {"runs": 220, "fault_runs": 60, "wall_s": 70, "per_task_s": 120},
         "thorough": {"runs": 20000, "fault_runs": 5000, "wall_s": 900, "per_task_s": 300},
@@ -20,5 +24,13 @@ PLANS = {
     "C15": ("hist", {
         "quick": {"runs": 300, "fault_runs": 120, "wall_s": 70, "per_task_s": 120},
         "thorough": {"runs": 30000, "fault_runs": 12000, "wall_s": 900, "per_task_s": 300},
+    }),
+    "C17": ("pf", {
+        "quick": {"runs": 400, "fault_runs": 80, "wall_s": 70, "per_task_s": 180},
+        "thorough": {"runs": 30000, "fault_runs": 6000, "wall_s": 900, "per_task_s": 300},
+    }),
+    "C19": ("mat", {
+        "quick": {"runs": 600, "fault_runs": 100, "wall_s": 70, "per_task_s": 120},
+        "thorough": {"runs": 60000, "fault_runs": 10000, "wall_s": 900, "per_task_s": 300},
     }),
 }
